@@ -50,7 +50,11 @@ type Gen struct {
 	SuffixNames bool
 	suffixed    string
 	// Repeat: one draw in Repeat re-issues an earlier path-level call of the case verbatim (0 = never)
-	Repeat   int
+	Repeat int
+	// FailingSources: one non-empty file member in FailingSources has a source that cannot be opened (0 = never)
+	FailingSources int
+	// RelSpell: one path operand in RelSpell is spelled relative to the root ("d/f", "./d/f") instead of absolute (0 = never)
+	RelSpell int
 	past     []Step
 	Weights  map[string]int
 	MaxSize  int
@@ -270,6 +274,14 @@ func (g *Gen) Draw(t *rapid.T, mr *MRunner) Step {
 		}
 	}
 	s := g.drawFresh(t, mr)
+	if g.RelSpell > 0 {
+		// the same entry under another spelling: relative to the root, or ./-anchored
+		for _, pp := range []*string{&s.Path, &s.Path2} {
+			if len(*pp) > 1 && (*pp)[0] == '/' && s.Op != "symlink" && !strings.HasPrefix(s.Op, "arch_") && rapid.IntRange(0, g.RelSpell-1).Draw(t, "respell") == 0 {
+				*pp = rapid.SampledFrom([]string{"", "./"}).Draw(t, "spelling") + (*pp)[1:]
+			}
+		}
+	}
 	g.remember(s)
 	return s
 }
@@ -428,6 +440,9 @@ func (g *Gen) draw1(t *rapid.T, mr *MRunner) Step {
 				var c Step
 				g.content(t, &c)
 				mb.Size, mb.Dist, mb.Seed = c.Size, c.Dist, c.Seed
+				if g.FailingSources > 0 && mb.Size > 0 && rapid.IntRange(0, g.FailingSources-1).Draw(t, "unreadable-source") == 0 {
+					mb.FailOpen = true
+				}
 			}
 			s.Members = append(s.Members, mb)
 		}
